@@ -193,6 +193,25 @@ def grid_construction(rep, res, entry):
                   msg=f"the number of samples is the quotient overlap / step converted with `{how}` (towards zero / one-sided) plus a constant: "
                       f"whenever the overlap is not a near-integer multiple of the coarsest step the grid has one interval too few or too many "
                       f"and its step is not the one closest to the coarsest mean input step")
+    # the coarsest step is the coarsest over ALL listed domains (the first one included): the step handed to the grid builder depends on
+    # every domain
+    for ev in res.events("call"):
+        fn = ev.d["callee"]
+        if fn.name != "arange_with_interval":
+            continue
+        bound = dict(ev.d["kws"])
+        for i, a in enumerate(ev.d["args"]):
+            if i < len(fn.params):
+                bound.setdefault(fn.params[i], a)
+        stepv = bound.get(fn.params[2]) if len(fn.params) > 2 else None
+        if stepv is None:
+            continue
+        have = {o.split("|")[0] for o in (stepv.flat().data | stepv.flat().shp)}
+        miss = sorted({"dom1", "dom2"} - have)
+        rep.check("R-FLOW", "the coarsest step is taken over every listed domain", not miss, where=ev.loc, construct=ev.text()[:80], entry=entry,
+                  config=res.config,
+                  msg=f"the step of the common grid does not depend on {miss}: when that domain is the coarsest one (e.g. it is listed first) the "
+                      f"grid is finer than the coarsest input and the result depends on the order of the arguments")
     # judged where the grid is built: every array handed on as `new_domain` to the interpolators
     grids = {}
     for ev in res.events("opaque_callee"):
